@@ -45,6 +45,7 @@
 package sx
 
 import (
+	"time"
 	"fmt"
 	"go/token"
 	"go/types"
@@ -96,6 +97,7 @@ type interpreter struct {
 	stats       EngineStats
 	symMapOrder int // 0 off, 1 at iteration sites in package bexpr only, 2 everywhere
 	stepBudget  int64
+	deadline    time.Time // of the harness; checked inside paths at solver calls
 	tier        int
 	seed        int64
 	mon         *monitor
